@@ -29,7 +29,9 @@ Record view (data src : Type) := mkview { v_data : data; v_isrc : src }.
 Arguments mkview {data src} _ _.
 Arguments v_data {data src} _.
 Arguments v_isrc {data src} _.
-Definition tv (data src : Type) : Type := (view data src * option src)%type.
+(* ... and the values of a global-fit-parameter dependent data field as the
+   manager holds them now (None: no such field / not calculated) *)
+Definition tv (data src gv : Type) : Type := (view data src * (option src * option gv))%type.
 
 Record world := mkworld {
   data : Type;            (* trial data sets *)
@@ -41,23 +43,28 @@ Record world := mkworld {
   Out : Type;             (* (log_lambda, grads) *)
   G : Type;               (* nsgrad_i *)
   Out2 : Type;            (* nsgrad2 *)
+  GV : Type;              (* values of a global-fit-parameter dependent data field *)
   (* ParameterGrid.round_to_lower / upper / nearest_grid_point, delta, and
      whether the PDF set has a PDF for a grid value *)
   glow : Z -> Z; gup : Z -> Z; gnear : Z -> Z; gdx : Z; in_grid : Z -> bool;
   (* MultiDimGridPDF.get_pd_with_eventdata of the signal PDF at a grid value:
      depends on the manager as it is now and on the event data array that
      SignalMultiDimGridPDFSet.initialize_for_new_trial built *)
-  Fsig : tv data src -> tv data src -> Z -> V;
+  Fsig : tv data src GV -> tv data src GV -> Z -> V;
   (* background PDF *)
-  Fbkg : tv data src -> V;
+  Fbkg : tv data src GV -> V;
   Lmk : Z -> Z -> V -> V -> LC;        (* x0 x1 M0 M1 *)
   Lev : LC -> Z -> O;                  (* m*x + b, m *)
   Pmk : V -> V -> V -> PC;             (* M0 M1 M2 *)
   Pev : PC -> Z -> Z -> O;             (* x x1 *)
   (* SigOverBkgPDFRatio + ZeroSigH0SingleDatasetTCLLHRatio.evaluate *)
-  fin : O -> V -> tv data src -> Z * Z -> Out;
-  nsg_of : O -> V -> tv data src -> Z * Z -> G;
-  g2 : G -> tv data src -> Z -> Out2 }.
+  fin : O -> V -> tv data src GV -> Z * Z -> Out;
+  nsg_of : O -> V -> tv data src GV -> Z * Z -> G;
+  g2 : G -> tv data src GV -> Z -> Out2;
+  (* the calculation function of the global-fit-parameter dependent data field:
+     func(tdm, shg_mgr, pmm, global_fitparams_dict) — reads the manager (events,
+     source data fields), the current source hypothesis and the parameter value *)
+  Fg : view data src -> option src -> src -> Z -> GV }.
 
 (* configuration of the analysis objects *)
 Record cfg := mkcfg {
@@ -65,19 +72,22 @@ Record cfg := mkcfg {
   c_npre : Z;           (* len(tdm._pre_evt_sel_static_data_fields_dict) *)
   c_nstat : Z;          (* len(tdm._static_data_fields_dict) *)
   c_cache_pd : bool;    (* MultiDimGridPDF.cache_pd_values *)
-  c_par : bool }.       (* Parabola1D (true) or Linear1D (false) interpolation *)
+  c_par : bool;         (* Parabola1D (true) or Linear1D (false) interpolation *)
+  c_ngfp : Z;           (* len(tdm._global_fitparam_data_fields_dict) (0 or 1 field, depending on the interpolation parameter) *)
+  c_gfp_srcevt : bool }. (* that field has is_srcevt_data=True (values kept in DataField._values, not in tdm.events) *)
 
 (* trace of what is actually computed during one operation *)
 Inductive tr := TF (g : Z)      (* manifold function called for grid value g *)
               | TP (g : Z)      (* signal PDF of grid value g evaluated (not served from _cache_pd) *)
-              | TB.             (* background PDF evaluated *)
+              | TB              (* background PDF evaluated *)
+              | TG.             (* calculation function of the global-fit-parameter data field called *)
 
 Section Machine.
 Variable W : world.
 Variable C : cfg.
 Notation Data := (data W).
 Notation Src := (src W).
-Notation Tv := (tv (data W) (src W)).
+Notation Tv := (tv (data W) (src W) (GV W)).
 
 Record pdfc := mkpdfc { p_sid : option Z; p_pd : option (V W) }.
 
@@ -91,13 +101,20 @@ Record state := mkst {
   s_par : option Z * Z * option (PC W);     (* Parabola1D._cache: trial_data_state_id, x1, (M1, a, b) *)
   s_sig : Z -> pdfc;                        (* per grid value: _cache_tdm_trial_data_state_id, _cache_pd *)
   s_bkg : pdfc;
-  s_nsg : option (G W) }.                   (* llhratio._cache_nsgrad_i *)
+  s_nsg : option (G W);                     (* llhratio._cache_nsgrad_i *)
+  s_gkey : option Z;                        (* DataField._global_fitparam_value_list *)
+  s_gv : option (GV W) }.                   (* the field's values: column of tdm.events, or DataField._values (srcevt) *)
 
-Definition set_sid (st : state) v := mkst v (s_view st) (s_srcf st) (s_cur st) (s_evd st) (s_lin st) (s_par st) (s_sig st) (s_bkg st) (s_nsg st).
-Definition set_lin (st : state) v := mkst (s_sid st) (s_view st) (s_srcf st) (s_cur st) (s_evd st) v (s_par st) (s_sig st) (s_bkg st) (s_nsg st).
-Definition set_par (st : state) v := mkst (s_sid st) (s_view st) (s_srcf st) (s_cur st) (s_evd st) (s_lin st) v (s_sig st) (s_bkg st) (s_nsg st).
-Definition set_sig (st : state) v := mkst (s_sid st) (s_view st) (s_srcf st) (s_cur st) (s_evd st) (s_lin st) (s_par st) v (s_bkg st) (s_nsg st).
-Definition set_bkg_nsg (st : state) b n := mkst (s_sid st) (s_view st) (s_srcf st) (s_cur st) (s_evd st) (s_lin st) (s_par st) (s_sig st) b n.
+(* what the PDFs can read besides the events: source data fields and the
+   global-fit-parameter dependent field *)
+Definition s_ext (st : state) : option Src * option (GV W) := (s_srcf st, s_gv st).
+
+Definition set_sid (st : state) v := mkst v (s_view st) (s_srcf st) (s_cur st) (s_evd st) (s_lin st) (s_par st) (s_sig st) (s_bkg st) (s_nsg st) (s_gkey st) (s_gv st).
+Definition set_lin (st : state) v := mkst (s_sid st) (s_view st) (s_srcf st) (s_cur st) (s_evd st) v (s_par st) (s_sig st) (s_bkg st) (s_nsg st) (s_gkey st) (s_gv st).
+Definition set_par (st : state) v := mkst (s_sid st) (s_view st) (s_srcf st) (s_cur st) (s_evd st) (s_lin st) v (s_sig st) (s_bkg st) (s_nsg st) (s_gkey st) (s_gv st).
+Definition set_sig (st : state) v := mkst (s_sid st) (s_view st) (s_srcf st) (s_cur st) (s_evd st) (s_lin st) (s_par st) v (s_bkg st) (s_nsg st) (s_gkey st) (s_gv st).
+Definition set_bkg_nsg (st : state) b n := mkst (s_sid st) (s_view st) (s_srcf st) (s_cur st) (s_evd st) (s_lin st) (s_par st) (s_sig st) b n (s_gkey st) (s_gv st).
+Definition set_g (st : state) k v := mkst (s_sid st) (s_view st) (s_srcf st) (s_cur st) (s_evd st) (s_lin st) (s_par st) (s_sig st) (s_bkg st) (s_nsg st) k v.
 
 Definition upd (f : Z -> pdfc) (g : Z) (c : pdfc) : Z -> pdfc :=
   fun h => if h =? g then c else f h.
@@ -106,13 +123,13 @@ Definition upd (f : Z -> pdfc) (g : Z) (c : pdfc) : Z -> pdfc :=
 Definition calc_source_fields (st : state) (s : Src) : state :=
   if tdm_src_skip (c_nsrc C) then st
   else mkst (tdm_src_bump (s_sid st)) (s_view st) (Some s) (s_cur st) (s_evd st)
-            (s_lin st) (s_par st) (s_sig st) (s_bkg st) (s_nsg st).
+            (s_lin st) (s_par st) (s_sig st) (s_bkg st) (s_nsg st) (s_gkey st) (s_gv st).
 
 (* SingleDatasetTCLLHRatio.__init__ on freshly built objects *)
 Definition init (s0 : Src) : state :=
   calc_source_fields
     (mkst tdm_sid_initial None None s0 None (None, 0, None) (None, 0, None)
-          (fun _ => mkpdfc None None) (mkpdfc None None) None) s0.
+          (fun _ => mkpdfc None None) (mkpdfc None None) None gfp_initial_value None) s0.
 
 (* Analysis.initialize_trial: tdm.initialize_trial then
    llhratio.initialize_for_new_trial *)
@@ -121,15 +138,22 @@ Definition init_trial (st : state) (d : Data) : state :=
   let sid2 := if tdm_stat_skip (c_nstat C) then sid1 else tdm_stat_bump sid1 in
   let sid3 := tdm_init_bump sid2 in
   let vw := mkview d (s_cur st) in
-  mkst sid3 (Some vw) (s_srcf st) (s_cur st) (Some (vw, s_srcf st))
+  (* the remembered parameter values of the global-fit-parameter field are
+     forgotten (fix 13a1d9c), so the first evaluation of the trial recalculates
+     the field whether or not the events array handed over already carries its
+     column (modelled: a new array, the column of a plain field is gone;
+     DataField._values of a srcevt field stays); the event data snapshot does
+     not read the field *)
+  mkst sid3 (Some vw) (s_srcf st) (s_cur st) (Some (vw, (s_srcf st, None)))
        (s_lin st) (s_par st) (s_sig st) (s_bkg st)
-       (match ns2_reset_on_new_trial with None => None | Some _ => s_nsg st end).
+       (match ns2_reset_on_new_trial with None => None | Some _ => s_nsg st end)
+       gfp_reset_on_new_trial (if gfp_is_srcevt (c_gfp_srcevt C) then s_gv st else None).
 
 (* SingleDatasetTCLLHRatio.change_shg_mgr *)
 Definition change_source (st : state) (s : Src) : state :=
   calc_source_fields
     (mkst (s_sid st) (s_view st) (s_srcf st) s (s_evd st) (s_lin st) (s_par st)
-          (s_sig st) (s_bkg st) (s_nsg st)) s.
+          (s_sig st) (s_bkg st) (s_nsg st) (s_gkey st) (s_gv st)) s.
 
 (* MultiDimGridPDF.get_pd_with_eventdata / get_pd with evt_mask = None:
    returns the value, the new cache and whether the PDF was evaluated *)
@@ -211,17 +235,33 @@ Definition interp (st : state) (cur evd : Tv) (x : Z) :=
 
 (* ZeroSigH0SingleDatasetTCLLHRatio.evaluate with a SigOverBkgPDFRatio of a
    SignalMultiDimGridPDFSet and a background MultiDimGridPDF *)
+(* the first part of evaluate: tdm.calculate_global_fitparam_data_fields with
+   DataField._calc_global_fitparam_dependent_values for the one field (name 1;
+   the events array has column 0 and, once calculated, a plain field's column 1) *)
+Definition gfp_step (st : state) (vw : view Data Src) (x : Z) : state * list tr :=
+  if llh_calc_gfp (tdm_has_gfp (c_ngfp C)) then
+    if tdm_gfp_skip (c_ngfp C) then (st, [])
+    else
+      let cols := if gfp_is_srcevt (c_gfp_srcevt C) then [0]
+                  else match s_gv st with Some _ => [0; 1] | None => [0] end in
+      let calc := if gfp_name_missing 1 cols then true else gfp_value_differs x (s_gkey st) in
+      let st1 := if gfp_skip_calc calc then st
+                 else set_g st (Some (gfp_store_value x)) (Some (Fg W vw (s_srcf st) (s_cur st) x)) in
+      (set_sid st1 (tdm_gfp_bump (s_sid st1)), if calc then [TG] else [])
+  else (st, []).
+
 Definition evaluate (st : state) (ns x : Z) : state * res (Out W) * list tr :=
   match s_view st, s_evd st with
   | Some vw, Some evd =>
-    let cur := (vw, s_srcf st) in
-    let '(st1, t, r) := interp st cur evd x in
+    let '(st0, tg) := gfp_step st vw x in
+    let cur := (vw, s_ext st0) in
+    let '(st1, t, r) := interp st0 cur evd x in
     match r with
-    | Err e => (st1, Err e, t)
+    | Err e => (st1, Err e, tg ++ t)
     | Ok o =>
       let '(b, c, computed) := pdf_get (s_sid st1) (s_bkg st1) (Fbkg W cur) in
       (set_bkg_nsg st1 c (Some (nsg_of W o b cur (ns, x))),
-       Ok (fin W o b cur (ns, x)), t ++ (if computed then [TB] else []))
+       Ok (fin W o b cur (ns, x)), tg ++ t ++ (if computed then [TB] else []))
     end
   | _, _ => (st, Err TypeError, [])
   end.
@@ -230,7 +270,7 @@ Definition evaluate (st : state) (ns x : Z) : state * res (Out W) * list tr :=
 Definition ns_grad2 (st : state) (ns : Z) : res (Out2 W) :=
   if ns2_no_cache (match s_nsg st with None => None | Some _ => Some 0 end) then Err RuntimeError
   else match s_nsg st, s_view st with
-       | Some g, Some vw => Ok (g2 W g (vw, s_srcf st) ns)
+       | Some g, Some vw => Ok (g2 W g (vw, (s_srcf st, None)) ns)
        | _, _ => Err TypeError
        end.
 
@@ -255,6 +295,13 @@ Fixpoint run (st : state) (ops : list op) : list (obs * list tr * Z) :=
 Definition observations (st : state) (ops : list op) : list obs :=
   map (fun x => fst (fst x)) (run st ops).
 
+(* the state after a history *)
+Fixpoint mfinal (st : state) (ops : list op) : state :=
+  match ops with
+  | [] => st
+  | o :: r => mfinal (fst (fst (step st o))) r
+  end.
+
 End Machine.
 
 Arguments p_sid {W} _.
@@ -269,14 +316,18 @@ Arguments s_par {W} _.
 Arguments s_sig {W} _.
 Arguments s_bkg {W} _.
 Arguments s_nsg {W} _.
+Arguments s_gkey {W} _.
+Arguments s_gv {W} _.
+Arguments s_ext {W} _.
 
 (* ------------------------------------------------------------------------
    An executable world with free (uninterpreted) payloads: every output is the
    list of numbers that records, tagged and with fixed-length fields, which
    data / source / grid values it was computed from.  Used by the
    correspondence and for the witnesses. *)
-Definition enc_tv (c : tv Z Z) : list Z :=
-  [v_data (fst c); v_isrc (fst c); match snd c with None => -1 | Some s => s end].
+Definition enc_tv (c : tv Z Z (list Z)) : list Z :=
+  [v_data (fst c); v_isrc (fst c); match fst (snd c) with None => -1 | Some s => s end]
+  ++ match snd (snd c) with None => [0; 0; 0; 0; 0; 0] | Some g => 1 :: g end.
 
 (* regular grid lb + i*d of the code (ParameterGrid), values in units of a
    dyadic fraction; PDFs exist for lo <= g <= hi *)
@@ -289,7 +340,7 @@ Definition znear (lb d x : Z) : Z :=
   lb + (i + (if 2 * r >? d then 1 else 0)) * d.
 
 Definition wfree (lb d lo hi : Z) : world :=
-  mkworld Z Z (list Z) (list Z) (list Z) (list Z) (list Z) (list Z) (list Z)
+  mkworld Z Z (list Z) (list Z) (list Z) (list Z) (list Z) (list Z) (list Z) (list Z)
     (zlow lb d) (zup lb d) (znear lb d) d
     (fun g => (lo <=? g) && (g <=? hi) && ((g - lb) mod d =? 0))
     (fun cur evd g => [1; g] ++ enc_tv cur ++ enc_tv evd)
@@ -300,4 +351,5 @@ Definition wfree (lb d lo hi : Z) : world :=
     (fun p x x1 => [5; x; x1] ++ p)
     (fun o b cur p => [7; fst p; snd p] ++ enc_tv cur ++ b ++ o)
     (fun o b cur p => [8; fst p; snd p] ++ enc_tv cur ++ b ++ o)
-    (fun g cur ns => [9; ns] ++ enc_tv cur ++ g).
+    (fun g cur ns => [9; ns] ++ enc_tv cur ++ g)
+    (fun vw sf cs x => [v_data vw; v_isrc vw; match sf with None => -1 | Some s => s end; cs; x]).
